@@ -94,32 +94,93 @@ theorem tokensValid_is_source (ts : List Tok) : Gen.tokensValid ts = tokensValid
     | comma => rfl
     | eq => rfl
 
+/-! ## `_span_to_tok`, `_span_to_str_or_int` -/
+
+/-- `_span_to_tok(character)` over the value tables of the three enums IS the model's `charTok` -/
+theorem spanToTok_char (c : Char) : Gen.spanToTok [c] = charTok c := by
+  unfold charTok
+  by_cases h1 : c = '+'
+  · subst h1; rfl
+  by_cases h2 : c = '-'
+  · subst h2; rfl
+  by_cases h3 : c = '*'
+  · subst h3; rfl
+  by_cases h4 : c = '^'
+  · subst h4; rfl
+  by_cases h5 : c = '/'
+  · subst h5; rfl
+  by_cases h6 : c = '='
+  · subst h6; rfl
+  by_cases h7 : c = '('
+  · subst h7; rfl
+  by_cases h8 : c = ')'
+  · subst h8; rfl
+  by_cases h9 : c = ','
+  · subst h9; rfl
+  simp only [h1, h2, h3, h4, h5, h6, h7, h8, h9, if_false]
+  have e : ∀ d : Char, c ≠ d → (d == c) = false := by
+    intro d hd; simp [Ne.symm hd]
+  simp [Gen.spanToTok, Gen.memberOf, Gen.operatorValues, Gen.specifierValues, Gen.groupValues, List.find?,
+    e _ h1, e _ h2, e _ h3, e _ h4, e _ h5, e _ h6, e _ h7, e _ h8, e _ h9]
+
+/-- `_span_to_tok(span) or _span_to_str_or_int(span)` IS the model's `spanTok` on a span without token characters -/
+theorem spanFlush_eq (span : List Char) (hinv : ∀ c ∈ span, charTok c = none) : Gen.spanFlush span = spanTok span := by
+  unfold spanTok
+  by_cases k1 : span = kwMin
+  · subst k1; rfl
+  by_cases k2 : span = kwMax
+  · subst k2; rfl
+  by_cases k3 : span = kwIsqrt
+  · subst k3; rfl
+  have ne : ∀ d : Char, charTok d ≠ none → span ≠ [d] := by
+    intro d hd h
+    exact hd (hinv d (by simp [h]))
+  have e : ∀ l : List Char, span ≠ l → (l == span) = false := by
+    intro l hl; simp [Ne.symm hl]
+  have k1' : (['m', 'i', 'n'] == span) = false := e kwMin k1
+  have k2' : (['m', 'a', 'x'] == span) = false := e kwMax k2
+  have k3' : (['i', 's', 'q', 'r', 't'] == span) = false := e kwIsqrt k3
+  have hnone : Gen.spanToTok span = none := by
+    simp [Gen.spanToTok, Gen.memberOf, Gen.operatorValues, Gen.specifierValues, Gen.groupValues, List.find?,
+      e _ (ne '+' (by decide)), e _ (ne '-' (by decide)), e _ (ne '*' (by decide)), e _ (ne '^' (by decide)), e _ (ne '/' (by decide)),
+      e _ (ne '=' (by decide)), e _ (ne '(' (by decide)), e _ (ne ')' (by decide)), e _ (ne ',' (by decide)),
+      k1', k2', k3']
+  simp only [Gen.spanFlush, hnone, Gen.spanToStrOrInt, k1, k2, k3, if_false]
+
 /-- what the character loop leaves, with the final flush the statements after the loop perform -/
 def finishTok : Except ParseErr (List Tok × List Char) → Except ParseErr (List Tok)
   | .error e => .error e
-  | .ok (l, span) => .ok (if !span.isEmpty then l ++ [spanTok span] else l)
+  | .ok (l, span) => .ok (if !span.isEmpty then l ++ [Gen.spanFlush span] else l)
 
-theorem flush_eq (l : List Tok) (span : List Char) :
-    (if !span.isEmpty then l ++ [spanTok span] else l) = l ++ flushSpan span := by
+theorem flush_eq (l : List Tok) (span : List Char) (hinv : ∀ c ∈ span, charTok c = none) :
+    (if !span.isEmpty then l ++ [Gen.spanFlush span] else l) = l ++ flushSpan span := by
   unfold flushSpan
+  rw [spanFlush_eq span hinv]
   cases h : span.isEmpty <;> simp [h]
 
-/-- the character loop of `_tokenize_string_expr` in the source IS the model's `tokenizeAux` (tokens found so far in front) -/
-theorem tokLoop_is_source (cs : List Char) (l : List Tok) (span : List Char) :
+/-- the character loop of `_tokenize_string_expr` in the source IS the model's `tokenizeAux` (tokens found so far in front);
+    invariant: the current span holds no token character -/
+theorem tokLoop_is_source (cs : List Char) (l : List Tok) (span : List Char) (hinv : ∀ c ∈ span, charTok c = none) :
     finishTok (Gen.tokLoop cs l span) = (tokenizeAux cs span).map (fun r => l ++ r) := by
   induction cs generalizing l span with
-  | nil => simp only [Gen.tokLoop, finishTok, tokenizeAux, flush_eq, Except.map]
+  | nil => simp only [Gen.tokLoop, finishTok, tokenizeAux, flush_eq l span hinv, Except.map]
   | cons c cs ih =>
-    simp only [Gen.tokLoop, Gen.tokStep, tokenizeAux]
+    simp only [Gen.tokLoop, Gen.tokStep, tokenizeAux, spanToTok_char]
     by_cases hsp : c = ' '
     · simp [hsp, finishTok, Except.map]
     · simp only [hsp, if_false]
       cases hct : charTok c with
-      | none => simp only; exact ih l (span ++ [c])
+      | none =>
+        simp only
+        exact ih l (span ++ [c]) (by
+          intro d hd
+          rcases List.mem_append.mp hd with h | h
+          · exact hinv d h
+          · simp at h; subst h; exact hct)
       | some t =>
         simp only
-        rw [ih]
-        rw [flush_eq]
+        rw [ih _ _ (by intro d hd; simp at hd)]
+        rw [flush_eq l span hinv]
         cases tokenizeAux cs [] with
         | error e => simp [Except.map]
         | ok r => simp [Except.map, List.append_assoc]
@@ -127,7 +188,7 @@ theorem tokLoop_is_source (cs : List Char) (l : List Tok) (span : List Char) :
 /-- **`_tokenize_string_expr` in the source IS the model's `tokenize`** -/
 theorem tokenize_is_source (s : List Char) : Gen.tokenize s = tokenize s := by
   unfold Gen.tokenize tokenize tokenizeRaw
-  have := tokLoop_is_source s [] []
+  have := tokLoop_is_source s [] [] (by intro d hd; simp at hd)
   cases hl : Gen.tokLoop s [] [] with
   | error e =>
     rw [hl] at this
